@@ -178,6 +178,30 @@ theorem inv_hop (reqs : List Req) (s : St) (st : Nat) (h : Inv reqs s) (hw : s.w
       subst hx
       exact h.hok y (by rw [hreds]; rfl) k hk
 
+/-- the same before `.latest` is consumed (the state `redirect()` sees when it raises) -/
+theorem inv_hop_keep (reqs : List Req) (s : St) (st : Nat) (h : Inv reqs s) (hw : s.waited = true) (hr : isRedirect st = true) :
+    Inv reqs { s with redirects := s.redirects ++ [⟨st, s.cur.path, s.latest⟩] } := by
+  refine ⟨h.flight, h.peak, ?_, by intro hc; rw [hw] at hc; exact absurd hc (by decide), ?_, h.ents, h.qok, h.cok, ?_, h.eok⟩
+  · have := h.fifo
+    simp only [ledger, curOrigin, hw, ↓reduceIte] at this ⊢
+    cases hreds : s.redirects with
+    | nil => rw [hreds] at this; simpa using this
+    | cons y ys => rw [hreds] at this; simpa using this
+  · intro x hx
+    rcases List.mem_append.mp hx with hx | hx
+    · exact h.hist x hx
+    · simp only [List.mem_singleton] at hx; subst hx; exact hr
+  · intro x hx k hk
+    cases hreds : s.redirects with
+    | nil =>
+      simp only [hreds, List.nil_append, List.head?_cons, Option.some.injEq] at hx
+      subst hx
+      exact ⟨s.cur, h.cok k hk, rfl⟩
+    | cons y ys =>
+      simp only [hreds, List.cons_append, List.head?_cons, Option.some.injEq] at hx
+      subst hx
+      exact h.hok y (by rw [hreds]; rfl) k hk
+
 /-- transmitting the next hop / request from a consistent waiting state with nothing on the wire -/
 theorem inv_transmit_waiting (reqs : List Req) (servers : List Server) (t : St) (r : Req) (h : Inv reqs t)
     (hw : t.waited = true) (hpn : t.pending = none) (hc : ∀ k, t.latest = some k → reqOf reqs k = some r) :
@@ -194,13 +218,15 @@ theorem inv_handle (reqs : List Req) (servers : List Server) (s : St) (rp : Resp
   have h0 := inv_consume reqs s rp (s.alive && !(rp.close || rp.framing == 2 || rp.framing == 3)) h hw hp
   by_cases hr : isRedirect rp.status = true
   · simp only [hr, ↓reduceIte]
+    have hk := inv_hop_keep reqs _ rp.status h0 hw hr
+    have hrefuse := inv_finish reqs _ none [] true hk hw rfl (fun hc => absurd hc (by decide))
     have h1 := inv_hop reqs _ rp.status h0 hw hr
     split
-    · exact inv_congr reqs _ _ h1 rfl rfl rfl rfl rfl rfl rfl rfl rfl
+    · exact hrefuse
     · rename_i l hl
       split
       · split
-        · exact inv_congr reqs _ _ h1 rfl rfl rfl rfl rfl rfl rfl rfl rfl
+        · exact hrefuse
         · apply inv_transmit_waiting reqs servers
           · exact inv_congr reqs _ _ h1 rfl rfl rfl rfl rfl rfl rfl rfl rfl
           · exact hw
